@@ -1,4 +1,5 @@
 import ScVerif.C01.Nested
+import ScVerif.C01.NestedColl
 import ScVerif.C01.Lemmas
 import ScVerif.C01.Flat
 /-!
@@ -201,5 +202,193 @@ example :
 `C01_nested_success_is_sequential`) -/
 example : EqRefl flatOps ∧ ∀ a b : Msg, flatOps.eq a b = true → a = b := by
   refine ⟨fun m => by simp [flatOps], fun a b h => by simpa [flatOps] using h⟩
+
+/-! ## the same for `Collection.Update` / `Add` (`NestedColl.lean`) -/
+
+/-- A callback that makes no call is an ordinary callback: the write is `Collection.Update` of `Model.lean`. -/
+theorem C01_nested_update_none_is_plain (cfg : Cfg M K R) (s : CState M R) (id : String) (msg : M)
+    (wr : WriteReq M K) (site : Site) :
+    Coll.updateN cfg s id msg wr site [] = ((Coll.update cfg s id msg wr).1, (Coll.update cfg s id msg wr).2, []) := by
+  unfold Coll.updateN Coll.update
+  dsimp only
+  cases hv : cfg.ops.validate (fieldUpdater cfg wr) msg with
+  | some c => simp
+  | none =>
+    dsimp only
+    have hch : changeFnN cfg.ops wr (fieldUpdater cfg wr) msg site (nestedRunC cfg ([] : List (COp M K))) =
+        fun o d (x : UNest M R) => (changeFn cfg.ops wr (fieldUpdater cfg wr) msg o d, x) := by
+      funext o d x
+      rw [changeFnN_eq, nestedRunC_nil]; simp
+    rw [hch, getAndUpdateN_lift]
+    dsimp only
+    rcases hgau : getAndUpdate cfg.ops (updGet cfg wr) (changeFn cfg.ops wr (fieldUpdater cfg wr) msg) (updSave cfg wr)
+      { st := s, id := icptId cfg id, created := none, idCalls := [], createdCalls := 0 } with ⟨r, c⟩
+    dsimp only
+    cases r.err <;> cases r.new <;> simp [eventsOfC]
+
+/-- "A call that fails changes nothing and emits nothing", with nested calls, for `Collection.Update`: a
+failing write returns no message and emits no event of its own, and the contents and the clock are EXACTLY
+what the calls made from its callback left, started from the contents and clock the write found (`s1`
+differs from `s` at most in the rng, which the write's own id generation may have advanced) — or, if the
+write did not get as far as the callback, the contents and clock it found. -/
+theorem C01_nested_update_failed_call_frame (cfg : Cfg M K R) (s : CState M R) (id : String) (msg : M)
+    (wr : WriteReq M K) (site : Site) (calls : List (COp M K)) :
+    (Coll.updateN cfg s id msg wr site calls).1.err ≠ none →
+      (Coll.updateN cfg s id msg wr site calls).1.val = none ∧
+      (Coll.updateN cfg s id msg wr site calls).1.events = eventsOfC (Coll.updateN cfg s id msg wr site calls).2.2 ∧
+      ∃ s1 s2 : CState M R, s1.items = s.items ∧ s1.clock = s.clock ∧
+        (((Coll.updateN cfg s id msg wr site calls).2.2 = [] ∧ s2 = s1) ∨
+         ((Coll.updateN cfg s id msg wr site calls).2.2 = (Coll.run cfg s1 calls).1 ∧ s2 = (Coll.run cfg s1 calls).2)) ∧
+        (Coll.updateN cfg s id msg wr site calls).2.1.items = s2.items ∧
+        (Coll.updateN cfg s id msg wr site calls).2.1.clock = s2.clock := by
+  unfold Coll.updateN
+  dsimp only
+  cases hv : cfg.ops.validate (fieldUpdater cfg wr) msg with
+  | some c => intro _; exact ⟨rfl, rfl, s, s, rfl, rfl, Or.inl ⟨rfl, rfl⟩, rfl, rfl⟩
+  | none =>
+    dsimp only
+    simp only [getAndUpdateN, changeFnN_eq]
+    have hf0 := updGet_frame cfg wr { st := s, id := icptId cfg id, created := none, idCalls := [], createdCalls := 0 }
+    rcases hg : updGet cfg wr { st := s, id := icptId cfg id, created := none, idCalls := [], createdCalls := 0 } with ⟨r1, c1⟩
+    rw [hg] at hf0
+    cases r1 with
+    | error e => intro _; exact ⟨rfl, rfl, c1.st, c1.st, hf0.1, hf0.2, Or.inl ⟨rfl, rfl⟩, rfl, rfl⟩
+    | ok old =>
+      dsimp only
+      have hcases : (∃ e, changeFn cfg.ops wr (fieldUpdater cfg wr) msg old old = .error e) ∨
+          (∃ new, changeFn cfg.ops wr (fieldUpdater cfg wr) msg old old = .ok new) := by
+        cases changeFn cfg.ops wr (fieldUpdater cfg wr) msg old old <;> simp
+      rcases hcases with ⟨e, hc⟩ | ⟨new, hc⟩
+      · simp only [hc]
+        intro _
+        by_cases hr : siteReached cfg.ops wr site old = true
+        · simp only [hr, ↓reduceIte]
+          exact ⟨trivial, trivial, c1.st, _, hf0.1, hf0.2, Or.inr ⟨by simp [nestedRunC], rfl⟩, rfl, rfl⟩
+        · simp only [hr, Bool.false_eq_true, ↓reduceIte]
+          exact ⟨trivial, trivial, c1.st, c1.st, hf0.1, hf0.2, Or.inl ⟨trivial, rfl⟩, rfl, rfl⟩
+      · simp only [hc]
+        by_cases hr : siteReached cfg.ops wr site old = true
+        · simp only [hr, ↓reduceIte]
+          have hf2 := updGet_frame cfg wr (nestedRunC cfg calls { c := c1, results := [] }).c
+          rcases hg2 : updGet cfg wr (nestedRunC cfg calls { c := c1, results := [] }).c with ⟨r2, c2⟩
+          rw [hg2] at hf2
+          cases r2 with
+          | error e2 =>
+            dsimp only
+            cases hb : eqOpt cfg.ops old none
+            · simp only [Bool.not_false, ↓reduceIte]
+              intro _
+              exact ⟨trivial, trivial, c1.st, (Coll.run cfg c1.st calls).2, hf0.1, hf0.2, Or.inr ⟨by simp [nestedRunC], rfl⟩,
+                by simpa [nestedRunC] using hf2.1, by simpa [nestedRunC] using hf2.2⟩
+            · simp only [Bool.not_true, Bool.false_eq_true, ↓reduceIte]
+              intro h; exact absurd rfl h
+          | ok again =>
+            dsimp only
+            cases hb : eqOpt cfg.ops old again
+            · simp only [Bool.not_false, ↓reduceIte]
+              intro _
+              exact ⟨trivial, trivial, c1.st, (Coll.run cfg c1.st calls).2, hf0.1, hf0.2, Or.inr ⟨by simp [nestedRunC], rfl⟩,
+                by simpa [nestedRunC] using hf2.1, by simpa [nestedRunC] using hf2.2⟩
+            · simp only [Bool.not_true, Bool.false_eq_true, ↓reduceIte]
+              intro h; exact absurd rfl h
+        · simp only [hr, Bool.false_eq_true, ↓reduceIte]
+          have hf2 := updGet_frame cfg wr c1
+          rcases hg2 : updGet cfg wr c1 with ⟨r2, c2⟩
+          rw [hg2] at hf2
+          cases r2 with
+          | error e2 =>
+            dsimp only
+            cases hb : eqOpt cfg.ops old none
+            · simp only [Bool.not_false, ↓reduceIte]
+              intro _
+              exact ⟨trivial, trivial, c1.st, c1.st, hf0.1, hf0.2, Or.inl ⟨trivial, rfl⟩, hf2.1, hf2.2⟩
+            · simp only [Bool.not_true, Bool.false_eq_true, ↓reduceIte]
+              intro h; exact absurd rfl h
+          | ok again =>
+            dsimp only
+            cases hb : eqOpt cfg.ops old again
+            · simp only [Bool.not_false, ↓reduceIte]
+              intro _
+              exact ⟨trivial, trivial, c1.st, c1.st, hf0.1, hf0.2, Or.inl ⟨trivial, rfl⟩, hf2.1, hf2.2⟩
+            · simp only [Bool.not_true, Bool.false_eq_true, ↓reduceIte]
+              intro h; exact absurd rfl h
+
+/-- No lost update, for `Collection.Update`: a write that SUCCEEDS returns the message it computed from
+the item it read (`old`: the stored message, or the provisional empty message of an item being created),
+the re-validation read of the contents its callback's calls left gave (by `proto.Equal`) that same
+message, and the returned message is what is stored under the write's id afterwards. -/
+theorem C01_nested_update_no_lost_update (cfg : Cfg M K R) (s : CState M R) (id : String) (msg : M)
+    (wr : WriteReq M K) (site : Site) (calls : List (COp M K)) :
+    (Coll.updateN cfg s id msg wr site calls).1.err = none →
+      ∃ old new c1 r2 c2,
+        updGet cfg wr { st := s, id := icptId cfg id, created := none, idCalls := [], createdCalls := 0 } = (.ok old, c1) ∧
+        changeFn cfg.ops wr (fieldUpdater cfg wr) msg old old = .ok new ∧
+        (Coll.updateN cfg s id msg wr site calls).1.val = some new ∧
+        updGet cfg wr (if siteReached cfg.ops wr site old then { c1 with st := (Coll.run cfg c1.st calls).2 } else c1) = (r2, c2) ∧
+        eqOpt cfg.ops old (match r2 with | .ok v => v | .error _ => none) = true ∧
+        ∃ t, lookup (Coll.updateN cfg s id msg wr site calls).2.1.items c2.id = some { body := new, time := t } := by
+  unfold Coll.updateN
+  dsimp only
+  cases hv : cfg.ops.validate (fieldUpdater cfg wr) msg with
+  | some c => intro h; simp at h
+  | none =>
+    dsimp only
+    simp only [getAndUpdateN, changeFnN_eq]
+    rcases hg : updGet cfg wr { st := s, id := icptId cfg id, created := none, idCalls := [], createdCalls := 0 } with ⟨r1, c1⟩
+    cases r1 with
+    | error e => intro h; simp at h
+    | ok old =>
+      dsimp only
+      have hcases : (∃ e, changeFn cfg.ops wr (fieldUpdater cfg wr) msg old old = .error e) ∨
+          (∃ new, changeFn cfg.ops wr (fieldUpdater cfg wr) msg old old = .ok new) := by
+        cases changeFn cfg.ops wr (fieldUpdater cfg wr) msg old old <;> simp
+      rcases hcases with ⟨e, hc⟩ | ⟨new, hc⟩
+      · simp only [hc]; intro h; simp at h
+      · simp only [hc]
+        have hmid : (if siteReached cfg.ops wr site old = true then nestedRunC cfg calls { c := c1, results := [] }
+            else { c := c1, results := [] }).c =
+            (if siteReached cfg.ops wr site old = true then { c1 with st := (Coll.run cfg c1.st calls).2 } else c1) := by
+          by_cases hr : siteReached cfg.ops wr site old = true <;> simp [hr, nestedRunC]
+        rw [hmid]
+        rcases hg2 : updGet cfg wr (if siteReached cfg.ops wr site old = true then { c1 with st := (Coll.run cfg c1.st calls).2 } else c1) with ⟨r2, c2⟩
+        cases r2 with
+        | error e2 =>
+          dsimp only
+          cases hb : eqOpt cfg.ops old none
+          · simp only [Bool.not_false, ↓reduceIte]; intro h; simp at h
+          · simp only [Bool.not_true, Bool.false_eq_true, ↓reduceIte]
+            intro _
+            refine ⟨old, new, c1, .error e2, c2, rfl, hc, rfl, hg2, hb, ?_⟩
+            simp [updSave, updateTimeC_items, lookup_setItem]
+        | ok again =>
+          dsimp only
+          cases hb : eqOpt cfg.ops old again
+          · simp only [Bool.not_false, ↓reduceIte]; intro h; simp at h
+          · simp only [Bool.not_true, Bool.false_eq_true, ↓reduceIte]
+            intro _
+            refine ⟨old, new, c1, .ok again, c2, rfl, hc, rfl, hg2, hb, ?_⟩
+            simp [updSave, updateTimeC_items, lookup_setItem]
+
+/-- an item that does not exist; the write (create-if-absent) has a before interceptor that adds the item
+through a nested call: the write is Aborted, the nested item stays, the only event is the nested ADD -/
+example :
+    let cfg : Cfg Msg Mask (List Nat) := { ops := flatOps, gen := flatGen }
+    let wr : WriteReq Msg Mask := { createIfAbsent := true, before := some (fun _ m => { m with a := m.a + 1 }) }
+    let r := Coll.updateN cfg (Coll.init cfg [] []) "a" { a := 2, s := "", c := none } wr .bf
+      [.add "a" { a := 5, s := "", c := none } {}]
+    (r.1.err, r.1.val, r.2.1.items.map (fun kv => (kv.1, kv.2.body.a)), r.1.events.map (fun e => (e.id, e.kind))) =
+    (some .aborted, none, [("a", 5)], [("a", .add)]) := by
+  decide
+
+/-- had the callback added ANOTHER item and read this one, the write goes through (as the last call of the
+sequence) -/
+example :
+    let cfg : Cfg Msg Mask (List Nat) := { ops := flatOps, gen := flatGen }
+    let wr : WriteReq Msg Mask := { createIfAbsent := true, before := some (fun _ m => { m with a := m.a + 1 }) }
+    let r := Coll.updateN cfg (Coll.init cfg [] []) "a" { a := 2, s := "", c := none } wr .bf
+      [.add "b" { a := 5, s := "", c := none } {}, .get "a" {}]
+    (r.1.err, r.2.1.items.map (fun kv => (kv.1, kv.2.body.a)), r.1.events.map (fun e => (e.id, e.kind))) =
+    (none, [("b", 5), ("a", 3)], [("b", .add), ("a", .add)]) := by
+  decide
 
 end ScVerif.C01
